@@ -112,7 +112,7 @@ def _case(c):
 
 
 def build(ctx):
-    regs = [0, 1, 3, 10] if ctx.quick else [0, 1, 2, 3, 10, "007"]
+    regs = [0, 1, 3, 10] if ctx.quick else [0, 1, 3, 10, "007"]
     shapes = SHAPES + (SHAPES_T if not ctx.quick else [])
     cases = []
     for si, (name, k, f) in enumerate(shapes):
